@@ -14,7 +14,8 @@ SHAPE_WALL_S = {'quick': 100, 'thorough': 600}
 FAMILY = ('PIPE: ISA definitions in which several variants / specific operand lists / operand-set members accept the same '
           'operand text; the opcode and operand-code value of every alternative is a distinct unconstrained symbol, so '
           '"alternative k was chosen" is decided as image == encoding of alternative k for all values; statements that no '
-          'alternative accepts (register name as number, wrong operand count, disallowed pair) must be rejected')
+          'alternative accepts (register name as number, wrong operand count, disallowed pair) must be rejected; plus seeded random '
+          'ambiguous ISAs (2-4 variants, positions accepting random subsets of {register, numeric, bracketed numeric, enumeration})')
 BOUNDS = {'opcode / operand codes': 'any value of the field', 'operand values': 'within and just outside the field range',
           'structures': 'hand-written catalogue (enumerated)', 'bitvector_width': 48}
 ASSUMPTIONS = ['which alternatives accept a statement is known by construction of each ISA; only the choice among them is judged',
@@ -184,4 +185,98 @@ def shapes(tier, seed):
     rej('D:undeclared-register-form', cfgD2(), 't rb')
     rej('D:indirect-of-unlisted-register', cfgD2(), 't [ix]')
     rej('D:register-in-brackets-as-number', cfgD2(), 't [ra]')
+    return S + random_shapes(tier, seed)
+
+
+# ---- seeded random ambiguous ISAs ------------------------------------------------------------------------------------
+# operand kinds: R register (ra/rb), N numeric expression, M bracketed numeric, E enumeration key.  A position of a
+# variant accepts a *set* of kinds (an operand set with one member per kind); whether a variant accepts a statement is
+# therefore known by construction, and the expected choice is the first accepting variant (specific operand lists
+# before operand sets inside a variant).
+def _member(kind, tag, k):
+    if kind == 'R':
+        return {f'r_ra': REG(f'{tag}_ra', 'ra', 3), f'r_rb': REG(f'{tag}_rb', 'rb', 3)}
+    if kind == 'N':
+        return {'n': {'type': 'numeric', 'bytecode': code(f'{tag}_n', 3), 'argument': arg(8, True)}}
+    if kind == 'M':
+        return {'m': {'type': 'indirect_numeric', 'bytecode': code(f'{tag}_m', 3), 'argument': arg(8, True)}}
+    if kind == 'E':
+        return {'e': {'type': 'enumeration', 'bytecode': {'size': 3, 'value_dict': {'eq': Sym(f'{tag}_e_eq', 0, 7), 'ne': Sym(f'{tag}_e_ne', 0, 7)}},
+                      'argument': {'size': 8, 'byte_align': True, 'value_dict': {'eq': Sym(f'{tag}_a_eq', 0, 255), 'ne': Sym(f'{tag}_a_ne', 0, 255)}}}}
+    raise ValueError(kind)
+
+
+def random_ambiguous(rnd, idx):
+    n_pos = rnd.choice([1, 1, 2, 2])
+    n_var = rnd.randint(2, 4)
+    osets, variants, sigs = {}, [], []
+    for v in range(n_var):
+        npos_v = n_pos if rnd.random() < 0.8 else max(0, n_pos - 1)
+        sig = []
+        names = []
+        for k in range(npos_v):
+            kinds = rnd.sample(['R', 'N', 'M', 'E'], rnd.randint(1, 3))
+            name = f'v{v}p{k}'
+            members = {}
+            for kd in kinds:
+                members.update(_member(kd, name, k))
+            osets[name] = {'operand_values': members}
+            sig.append(set(kinds))
+            names.append(name)
+        vc = {'bytecode': code(f'op{v}', 5)}
+        if npos_v:
+            vc['operands'] = {'count': npos_v, 'operand_sets': {'list': names}}
+        variants.append(vc)
+        sigs.append((sig, names))
+    ins = dict(variants[0])
+    ins['variants'] = variants[1:]
+    # the statement
+    kinds = [rnd.choice(['R', 'N', 'M', 'E']) for _ in range(rnd.choice([n_pos, n_pos, max(0, n_pos - 1)]))]
+    texts, uses_by_variant = [], None
+    consts = {}
+    rendered = []
+    for k, kd in enumerate(kinds):
+        if kd == 'R':
+            r = rnd.choice(['ra', 'rb'])
+            rendered.append((kd, r, {'id': f'r_{r}'}))
+        elif kd == 'N':
+            consts[f'v{k + 1}'] = vrange(8)
+            rendered.append((kd, f'v{k + 1}', {'id': 'n', 'val': V(f'v{k + 1}')}))
+        elif kd == 'M':
+            consts[f'v{k + 1}'] = vrange(8)
+            rendered.append((kd, f'[v{k + 1}]', {'id': 'm', 'val': V(f'v{k + 1}')}))
+        else:
+            key = rnd.choice(['eq', 'ne'])
+            rendered.append((kd, key, {'id': 'e', 'key': key}))
+    chosen = None
+    via_label = False
+    for v, (sig, names) in enumerate(sigs):
+        # an enumeration key is also a well-formed label name: a numeric operand accepts its text (and the statement
+        # then fails later because no such label exists)
+        if len(sig) == len(kinds) and all(kd in allowed or (kd == 'E' and 'N' in allowed) for kd, allowed in zip(kinds, sig)):
+            chosen = v
+            via_label = any(kd == 'E' and 'E' not in allowed for kd, allowed in zip(kinds, sig))
+            break
+    text = 'amb' + (' ' + ', '.join(t for _, t, _ in rendered) if rendered else '')
+    cfg = isa(operand_sets=osets, instructions={'amb': ins}, consts=consts)
+    if chosen is None or via_label:
+        return ('reject', f'rnd:{idx}:{"none-accepts" if chosen is None else "key-taken-as-undefined-label"}:{text}', cfg, text)
+    uses = []
+    for (kd, t, u), name in zip(rendered, sigs[chosen][1]):
+        d = {'set': name}
+        d.update(u)
+        uses.append(d)
+    return ('ok', f'rnd:{idx}:variant{chosen}:{text}', cfg, {'mnemonic': 'amb', 'variant': chosen, 'text': text, 'uses': uses})
+
+
+def random_shapes(tier, seed):
+    import random
+    rnd = random.Random(1300 + seed)
+    S = []
+    for i in range(60 if tier == 'quick' else 1500):
+        kind, sid, cfg, stmt = random_ambiguous(rnd, f'{seed}.{i}')
+        if kind == 'reject':
+            S.append(RejectShape(sid, config=cfg, stmt={'mnemonic': 'amb', 'text': stmt, 'uses': []}, props=['C13']))
+        else:
+            S.append(InstrShape(sid, config=cfg, stmt=stmt, props=['C13'], expect=[], width=48))
     return S
